@@ -4,12 +4,12 @@ import json, subprocess
 
 CHECKS = {
  "C01": ("E1 tcbsim", "exploration", "6 C01",
-   "Seeded search over schedules x segment faults x write/read interleavings on two real Tcb objects; byte-exact prefix invariant after every step, bounded-liveness drain afterwards. Sampling, not proof: a clean batch is evidence.",
-   "The session loop and Tcp::demux table are a small stub mirroring tcp_session.rs/tcp.rs (the real glue runs in the E2 checks); virtual clock; sample of schedules.",
+   "Seeded search over schedules x segment faults x write/read interleavings on two real Tcb objects; byte-exact prefix invariant after every step, bounded-liveness drain afterwards. Second scenario (C01.stack, engine E2): the same clauses with the real session glue - harness applications directly on Tcp, real TcpSession loop, Tcp::demux, Ipv4, Arp, Pci, Network on virtual time - under unbounded loss, duplication and delays beyond the retransmission timeout, then a fair network: every byte exactly once within a bounded number of retransmission timeouts, then silence on the wire. Sampling, not proof: a clean batch is evidence.",
+   "In the E1 scenario the session loop and Tcp::demux table are a small stub mirroring tcp_session.rs/tcp.rs; the C01.stack scenario runs the real ones but cannot read late (the shipped session hands data up eagerly); virtual clock; sample of schedules. A worker that blocks for good (asleep, no CPU time for 30 s) is reported as a deadlock of the code under test.",
    "deterministic simulation: seeded discrete-event schedule/fault search with reference-stream oracle"),
  "C03": ("E1 tcbsim", "exploration", "6 C03",
-   "As C01 plus closes in every state, old duplicate SYNs, RFC 9293 figure-5 transition monitor around every Tcb call, cross-endpoint sequence invariants, data-before-FIN and release-within-bound oracles.",
-   "Transition monitor works at Tcb-call granularity (one call may take several diagram edges); stub glue as C01.",
+   "As C01 plus closes in every state, old duplicate SYNs, RFC 9293 figure-5 transition monitor around every Tcb call, cross-endpoint sequence invariants, data-before-FIN and release-within-bound oracles. Second scenario (C03.stack, engine E2): the opening clauses through the real tcp.rs (Tcp::open, Tcp::listen, Tcp::demux, session table) - 1..6 connections between two machines, a third opened by both sides at once, shared/separate/wildcard listeners, ARP, addresses and ports varying per run, unbounded loss/duplication/delay; every connection is announced to both applications exactly once, nothing is reset, the wire falls silent.",
+   "Transition monitor works at Tcb-call granularity (one call may take several diagram edges); stub glue in E1. The shipped session has no close instruction, so the close clauses are decided in E1 only. A simultaneous open whose SYN meets a port that is not open yet is legitimately refused; nothing but safety is asserted about such a connection.",
    "deterministic simulation: seeded schedule/fault search with state-machine monitor and bounded-liveness drain"),
  "C12": ("E1 tcbsim (differential)", "exploration", "6 C12",
    "Each seeded schedule is executed twice with two ISN pairs (dense around 2^32 and 2^31 wrap points) and the ISN-normalised event traces must be identical; plus direct-drive check of the circular comparison primitives against the mathematical order.",
